@@ -544,3 +544,65 @@ Section WeakList.
     rewrite P1, Vc, Vc1. symmetry. apply spec_ext; auto.
   Qed.
 End WeakList.
+
+(* ---- the hypotheses are satisfiable (tests, not theorems): the two-column
+   workbook of Proofs/C01AliasExample.v (0, 1 = B1, B2; 2 = B1:B2; 3 = the
+   reference node B:B; 4 reads B:B; 5 reads B1:B2 and node 4) *)
+From Coq Require Import ZArith.
+From PV Require Import Proofs.C01AliasExample.
+Local Open Scope nat_scope.
+
+Example xl_ltN : ltN exaW [5; 2; 4; 2].
+Proof. repeat constructor; cbn; lia. Qed.
+
+Example xl_list_path :
+  snd (evaluate_list exaW exa_sem (init exaW) [5; 2; 4; 2])
+  = map (fun a => snd (evaluate exaW exa_sem (init exaW) a)) [5; 2; 4; 2]
+  /\ snd (evaluate_list exaW exa_sem (init exaW) [5; 2; 4; 2])
+     = [VInt 23; VTuple [VInt 3; VInt 4]; VInt 11; VTuple [VInt 3; VInt 4]]%Z.
+Proof.
+  split; [|vm_compute; reflexivity].
+  apply (list_path_weak exaW exa_sem (exa_wf _) (exa_weak _) xo_stored (init exaW) _ xo_inv xl_ltN).
+Qed.
+
+Example xl_permutation :
+  forall m, st_built (fst (evaluate_list exaW exa_sem (init exaW) [5; 3; 0])) m
+            = st_built (fst (evaluate_list exaW exa_sem (init exaW) [0; 5; 3])) m
+         /\ st_cache (fst (evaluate_list exaW exa_sem (init exaW) [5; 3; 0])) m
+            = st_cache (fst (evaluate_list exaW exa_sem (init exaW) [0; 5; 3])) m.
+Proof.
+  apply (permutation_weak exaW exa_sem (exa_wf _) (exa_weak _) xo_stored (init exaW) [5; 3; 0] [0; 5; 3]
+           xo_inv (settled_init exaW)).
+  - repeat constructor; cbn; lia.
+  - apply Permutation_sym, (Permutation_cons_append [5; 3] 0).
+Qed.
+
+Example xl_idempotent :
+  let s' := fst (run exaW exa_sem (init exaW) [Evaluate 5; Build 3]) in
+  st_built (fst (evaluate exaW exa_sem s' 2)) = st_built s'
+  /\ (forall k, st_cache (fst (evaluate exaW exa_sem s' 2)) k = st_cache s' k)
+  /\ snd (evaluate exaW exa_sem s' 2) = st_cache s' 2.
+Proof.
+  apply (idempotent_state_weak exaW exa_sem (exa_wf _) (exa_weak _) xo_stored (init exaW)
+           [Evaluate 5; Build 3] 5 2 xo_inv).
+  - repeat constructor; cbn; lia.
+  - left; reflexivity.
+  - right. constructor. cbn. auto.
+Qed.
+
+(* node 3 = B:B, alias of node 2 = B1:B2 (one column): element (1, 0) is B2 *)
+Example xl_alias : alias_node exaW xp_sem 3 2.
+Proof. repeat split; try reflexivity. cbn. lia. Qed.
+Example xl_unbounded :
+  snd (evaluate exaW xp_sem (init exaW) 3) = snd (evaluate exaW xp_sem (init exaW) 2)
+  /\ tuple_at (snd (evaluate exaW xp_sem (init exaW) 3)) 1 0
+     = snd (evaluate exaW xp_sem (init exaW) (nth (1 * 1 + 0) (wb_deps exaW 2) 0))
+  /\ tuple_at (snd (evaluate exaW xp_sem (init exaW) 3)) 1 0
+     = snd (evaluate exaW xp_sem (fst (evaluate exaW xp_sem (init exaW) 3))
+              (nth (1 * 1 + 0) (wb_deps exaW 2) 0)).
+Proof.
+  apply (unbounded_path_weak exaW xp_sem (exa_wf _) xp_weak xp_stored (init exaW) 3 2 1 1 0
+           xp_inv xl_alias); try (cbn; lia); reflexivity.
+Qed.
+Example xl_unbounded_value : tuple_at (snd (evaluate exaW xp_sem (init exaW) 3)) 1 0 = VInt 4.
+Proof. vm_compute. reflexivity. Qed.
